@@ -74,6 +74,9 @@ type Case interface {
 	fire()
 	enqueue(sel *selState, idx int)
 	dequeue(sel *selState)
+	isSend() bool
+	nRecv() int
+	obj() any
 }
 
 // RecvCase is a receive arm; after Select returns its index, V and OK hold the result.
@@ -86,7 +89,15 @@ type RecvCase[T any] struct {
 // R builds a receive arm.
 func R[T any](c *Chan[T]) *RecvCase[T] { return &RecvCase[T]{c: c} }
 
-func (r *RecvCase[T]) isNil() bool { return r.c == nil }
+func (r *RecvCase[T]) isNil() bool  { return r.c == nil }
+func (r *RecvCase[T]) isSend() bool { return false }
+func (r *RecvCase[T]) nRecv() int   { return 0 }
+func (r *RecvCase[T]) obj() any {
+	if r.c == nil {
+		return nil
+	}
+	return r.c
+}
 
 func (r *RecvCase[T]) ready() bool {
 	c := r.c
@@ -145,7 +156,20 @@ type SendCase[T any] struct {
 // S builds a send arm.
 func S[T any](c *Chan[T], v T) *SendCase[T] { return &SendCase[T]{c: c, v: v} }
 
-func (s *SendCase[T]) isNil() bool { return s.c == nil }
+func (s *SendCase[T]) isNil() bool  { return s.c == nil }
+func (s *SendCase[T]) isSend() bool { return true }
+func (s *SendCase[T]) obj() any {
+	if s.c == nil {
+		return nil
+	}
+	return s.c
+}
+func (s *SendCase[T]) nRecv() int {
+	if s.c == nil {
+		return 0
+	}
+	return s.c.Receivers()
+}
 
 func (s *SendCase[T]) ready() bool {
 	c := s.c
@@ -183,8 +207,25 @@ func (s *SendCase[T]) dequeue(sel *selState) {
 
 // Select mirrors the select statement. It returns the index of the arm that fired, or -1 when
 // hasDefault is set and no arm was ready.
+func objsOf(cases []Case) []any {
+	o := make([]any, 0, len(cases))
+	for _, c := range cases {
+		if x := c.obj(); x != nil {
+			o = append(o, x)
+		}
+	}
+	return o
+}
+
 func Select(hasDefault bool, cases ...Case) int {
-	vrt.Point("select", nil)
+	vrt.Point("select", nil, objsOf(cases)...)
+	if hasDefault && len(cases) == 1 && cases[0].isSend() {
+		// non-blocking send (hand-off idiom): log how many receivers were parked and the outcome
+		n := cases[0].nRecv()
+		k := selectNoPoint(hasDefault, cases)
+		vrt.LogEvent("trysend", "", n, k)
+		return k
+	}
 	return selectNoPoint(hasDefault, cases)
 }
 
@@ -210,7 +251,7 @@ func selectNoPoint(hasDefault bool, cases []Case) int {
 			c.enqueue(sel, i)
 		}
 	}
-	vrt.Point("chan.blocked", sel.ready)
+	vrt.Point("chan.blocked", sel.ready, objsOf(cases)...)
 	for _, c := range cases {
 		if !c.isNil() {
 			c.dequeue(sel)
@@ -224,13 +265,13 @@ func selectNoPoint(hasDefault bool, cases []Case) int {
 
 // Send mirrors ch <- v.
 func (c *Chan[T]) Send(v T) {
-	vrt.Point("chan.send", nil)
+	vrt.Point("chan.send", nil, chanObj(c))
 	selectNoPoint(false, []Case{S(c, v)})
 }
 
 // Recv mirrors <-ch.
 func (c *Chan[T]) Recv() T {
-	vrt.Point("chan.recv", nil)
+	vrt.Point("chan.recv", nil, chanObj(c))
 	r := R(c)
 	selectNoPoint(false, []Case{r})
 	return r.V
@@ -238,10 +279,17 @@ func (c *Chan[T]) Recv() T {
 
 // Recv2 mirrors v, ok := <-ch.
 func (c *Chan[T]) Recv2() (T, bool) {
-	vrt.Point("chan.recv", nil)
+	vrt.Point("chan.recv", nil, chanObj(c))
 	r := R(c)
 	selectNoPoint(false, []Case{r})
 	return r.V, r.OK
+}
+
+func chanObj[T any](c *Chan[T]) any {
+	if c == nil {
+		return nil
+	}
+	return c
 }
 
 // TrySend is the controller-context non-blocking send used by timers (no schedule point).
@@ -251,12 +299,13 @@ func (c *Chan[T]) TrySend(v T) bool {
 		return false
 	}
 	s.fire()
+	vrt.Touch(c)
 	return true
 }
 
 // Close mirrors close(ch).
 func Close[T any](c *Chan[T]) {
-	vrt.Point("chan.close", nil)
+	vrt.Point("chan.close", nil, chanObj(c))
 	c.CloseNoPoint()
 }
 
@@ -269,6 +318,7 @@ func (c *Chan[T]) CloseNoPoint() {
 		panic("close of closed channel")
 	}
 	c.closed = true
+	vrt.Touch(c)
 	c.ra.Release()
 	for _, w := range c.recvq {
 		if !w.sel.done {
